@@ -2,6 +2,7 @@ import Generated.Funcs
 import Webp.Impl.LTransform
 import Webp.Proofs.FuncsBridge
 import Webp.Proofs.FuncsLossless
+import Webp.Proofs.FuncsLossless2
 /-
   C01 — regenerated obligations: the pixel helpers of the VP8L *encoder*
   (internal/lossless/encode_predictor.go) translated from the Go AST on this run are the functions
@@ -9,8 +10,9 @@ import Webp.Proofs.FuncsLossless
   in `Webp/Props/C03Funcs.lean`).
 -/
 namespace Webp.Props.C01Funcs
-open Webp.Go Webp.Go.IntSem Webp.Proofs.FuncsBridge Webp.Proofs.FuncsLossless
+open Webp.Go Webp.Go.IntSem Webp.Proofs.FuncsBridge Webp.Proofs.FuncsLossless Webp.Proofs.FuncsLossless2
 open Webp.Impl.LTransform (chanAt)
+open Webp.Spec.LTransform (sext8 byteOfInt chR chG chB mk)
 
 /-- encode_predictor.go `avg2` = `Impl.LTransform.average2` -/
 theorem tie_avg2 (a b : UInt32) :
@@ -105,5 +107,202 @@ theorem tie_clampAddSubHalf (a c : UInt32) :
     Nat.reducePow, Nat.reduceMod]
 
 example : Generated.Funcs.clampAddSubHalf 0x12345678 0xfedcba98 = 9320 := by decide
+
+/-! ## LZ77 prefix codes (constants.go) -/
+
+/-- constants.go `bitsLog2Floor` (`for n > 1 { log++; n >>= 1 }`, loop fuel 64) terminates within
+    the fuel, never panics and is `Impl.LTransform.bitsLog2Floor` = `Nat.log2` on every
+    non-negative Go `int` -/
+theorem tie_bitsLog2Floor (n : Nat) (h : n < 2 ^ 63) :
+    Generated.Funcs.bitsLog2Floor n = .ok ((Webp.Impl.LTransform.bitsLog2Floor n : Nat) : Int) := by
+  have hl : Nat.log2 n ≤ 64 := by
+    by_cases h0 : n = 0
+    · subst h0; decide
+    · have := (Nat.log2_lt h0).2 h; omega
+  obtain ⟨m, hm⟩ := whileFuel_log2 64 0 n hl
+  unfold Generated.Funcs.bitsLog2Floor Webp.Impl.LTransform.bitsLog2Floor
+  simp only [hm, Res.bind]
+  simp
+
+/-- … and returns 0 for `n ≤ 1` (in particular every negative `int`) -/
+theorem bitsLog2Floor_nonpos (n : Int) (h : n ≤ 1) : Generated.Funcs.bitsLog2Floor n = .ok 0 := by
+  have : ¬ (n > 1) := by omega
+  simp [Generated.Funcs.bitsLog2Floor, whileFuel, this, Res.bind]
+
+/-- constants.go `PrefixEncodeNoLUT` never panics on a 1-based value `1 ≤ d < 2^63` and is
+    `Impl.LTransform.prefixEncode` (symbol, number of extra bits, extra-bits value) -/
+theorem tie_PrefixEncodeNoLUT (d : Nat) (h1 : 1 ≤ d) (h : d < 2 ^ 63) :
+    Generated.Funcs.PrefixEncodeNoLUT d = .ok (((Webp.Impl.LTransform.prefixEncode d).1 : Int),
+      ((Webp.Impl.LTransform.prefixEncode d).2.1 : Int), ((Webp.Impl.LTransform.prefixEncode d).2.2 : Int)) := by
+  unfold Generated.Funcs.PrefixEncodeNoLUT Webp.Impl.LTransform.prefixEncode
+  have e : (d : Int) - 1 = ((d - 1 : Nat) : Int) := by omega
+  simp only [e]
+  generalize hk : d - 1 = k
+  have hk63 : k < 2 ^ 63 := by omega
+  by_cases h2 : k < 2
+  · have : ((k : Int) < 2) := by omega
+    simp [h2, this]
+  · have : ¬ ((k : Int) < 2) := by omega
+    have hp := log2_pos k (by omega)
+    simp only [h2, this, decide_false, Bool.false_eq_true, if_false, tie_bitsLog2Floor k hk63, ok_bind,
+      Webp.Impl.LTransform.bitsLog2Floor]
+    generalize Nat.log2 k = L at *
+    have e2 : (L : Int) - 1 = ((L - 1 : Nat) : Int) := by omega
+    have e1 : ((1 : Nat) : Int) = 1 := rfl
+    simp only [e2, chkShift_nat, ok_bind, shr_nat, band_nat_lit, shl_lit_nat]
+    have hs : 1 ≤ 1 <<< (L - 1) := by rw [Nat.shiftLeft_eq]; simpa using Nat.one_le_two_pow
+    have e3 : (((1 <<< (L - 1) : Nat) : Int) - (1 : Int)) = ((1 <<< (L - 1) - 1 : Nat) : Int) := by omega
+    rw [e3, band_nat]
+    simp
+
+/-- constants.go `PrefixEncodeBitsNoLUT` = the first two components of `prefixEncode` -/
+theorem tie_PrefixEncodeBitsNoLUT (d : Nat) (h1 : 1 ≤ d) (h : d < 2 ^ 63) :
+    Generated.Funcs.PrefixEncodeBitsNoLUT d = .ok (((Webp.Impl.LTransform.prefixEncode d).1 : Int),
+      ((Webp.Impl.LTransform.prefixEncode d).2.1 : Int)) := by
+  unfold Generated.Funcs.PrefixEncodeBitsNoLUT Webp.Impl.LTransform.prefixEncode
+  have e : (d : Int) - 1 = ((d - 1 : Nat) : Int) := by omega
+  simp only [e]
+  generalize hk : d - 1 = k
+  have hk63 : k < 2 ^ 63 := by omega
+  by_cases h2 : k < 2
+  · have : ((k : Int) < 2) := by omega
+    simp [h2, this]
+  · have : ¬ ((k : Int) < 2) := by omega
+    have hp := log2_pos k (by omega)
+    simp only [h2, this, decide_false, Bool.false_eq_true, if_false, tie_bitsLog2Floor k hk63, ok_bind,
+      Webp.Impl.LTransform.bitsLog2Floor]
+    generalize Nat.log2 k = L at *
+    have e2 : (L : Int) - 1 = ((L - 1 : Nat) : Int) := by omega
+    have e1 : ((1 : Nat) : Int) = 1 := rfl
+    simp only [e2, chkShift_nat, ok_bind, shr_nat, band_nat_lit]
+    simp
+
+/-- outside the contract (`distance ≤ 0`, never passed by the encoder): `distance - 1 < 2` returns
+    the negative "symbol" `distance - 1`; the model (on `Nat`) is only claimed for `1 ≤ d` -/
+theorem PrefixEncodeNoLUT_nonpos (d : Int) (h : d ≤ 0) :
+    Generated.Funcs.PrefixEncodeNoLUT d = .ok (d - 1, 0, 0) := by
+  have : d - 1 < 2 := by omega
+  simp [Generated.Funcs.PrefixEncodeNoLUT, this]
+
+/-! ## pixel helpers (encode_predictor.go) -/
+
+/-- encode_predictor.go `subPixels` = `Impl.LTransform.subPixels` (`uint32` wrap-around subtraction) -/
+theorem tie_subPixels (a b : UInt32) :
+    Generated.Funcs.subPixels a.toNat b.toNat = ((Webp.Impl.LTransform.subPixels a b).toNat : Int) := by
+  have h1 : b.toNat &&& 4278255360 ≤ 4294967296 := by
+    have := @Nat.and_le_right b.toNat 4278255360; omega
+  have h2 : b.toNat &&& 16711935 ≤ 4294967296 := by
+    have := @Nat.and_le_right b.toNat 16711935; omega
+  simp only [Generated.Funcs.subPixels, Webp.Impl.LTransform.subPixels, band_nat_lit, lit_add_nat, wrapU_nat,
+    Nat.reducePow]
+  rw [wrapU32_sub_nat _ _ h1, wrapU32_sub_nat _ _ h2]
+  simp only [band_nat_lit, bor_nat, UInt32.toNat_or, UInt32.toNat_and, UInt32.toNat_sub, UInt32.toNat_add,
+    UInt32.toNat_ofNat, Nat.reducePow, Nat.reduceMod]
+
+/-- encode_predictor.go `predictPixel` = `Impl.LTransform.predictPixel`, every mode ≥ 0
+    (modes ≥ 14 take the `default:` branch) -/
+theorem tie_predictPixel (mode : Nat) (l t tr tl : UInt32) :
+    Generated.Funcs.predictPixel mode l.toNat t.toNat tr.toNat tl.toNat
+      = ((Webp.Impl.LTransform.predictPixel mode l t tr tl).toNat : Int) := by
+  match mode with
+  | 0 => rfl
+  | 1 => rfl
+  | 2 => rfl
+  | 3 => rfl
+  | 4 => rfl
+  | 5 => simp [Generated.Funcs.predictPixel, Webp.Impl.LTransform.predictPixel, tie_avg2]
+  | 6 => simp [Generated.Funcs.predictPixel, Webp.Impl.LTransform.predictPixel, tie_avg2]
+  | 7 => simp [Generated.Funcs.predictPixel, Webp.Impl.LTransform.predictPixel, tie_avg2]
+  | 8 => simp [Generated.Funcs.predictPixel, Webp.Impl.LTransform.predictPixel, tie_avg2]
+  | 9 => simp [Generated.Funcs.predictPixel, Webp.Impl.LTransform.predictPixel, tie_avg2]
+  | 10 => simp [Generated.Funcs.predictPixel, Webp.Impl.LTransform.predictPixel, tie_avg2]
+  | 11 => simp [Generated.Funcs.predictPixel, Webp.Impl.LTransform.predictPixel, tie_selectPred]
+  | 12 => simp [Generated.Funcs.predictPixel, Webp.Impl.LTransform.predictPixel, tie_clampAddSubFull]
+  | 13 => simp [Generated.Funcs.predictPixel, Webp.Impl.LTransform.predictPixel, tie_avg2, tie_clampAddSubHalf]
+  | n + 14 =>
+    have h : ∀ k : Int, k < 14 → decide (((n + 14 : Nat) : Int) = k) = false := by
+      intro k hk; simp only [decide_eq_false_iff_not]; omega
+    simp only [Generated.Funcs.predictPixel, h 0 (by decide), h 1 (by decide), h 2 (by decide), h 3 (by decide),
+      h 4 (by decide), h 5 (by decide), h 6 (by decide), h 7 (by decide), h 8 (by decide), h 9 (by decide),
+      h 10 (by decide), h 11 (by decide), h 12 (by decide), h 13 (by decide), Bool.false_eq_true, if_false]
+    rfl
+
+/-- a negative `mode` also takes the `default:` branch (`ARGBBlack`) -/
+theorem predictPixel_neg_mode (mode : Int) (h : mode < 0) (l t tr tl : Int) :
+    Generated.Funcs.predictPixel mode l t tr tl = 4278190080 := by
+  have h' : ∀ k : Int, 0 ≤ k → decide (mode = k) = false := by
+    intro k hk; simp only [decide_eq_false_iff_not]; omega
+  simp only [Generated.Funcs.predictPixel, h' 0 (by decide), h' 1 (by decide), h' 2 (by decide), h' 3 (by decide),
+    h' 4 (by decide), h' 5 (by decide), h' 6 (by decide), h' 7 (by decide), h' 8 (by decide), h' 9 (by decide),
+    h' 10 (by decide), h' 11 (by decide), h' 12 (by decide), h' 13 (by decide), Bool.false_eq_true, if_false]
+
+/-! ## cross-colour, encoder side (encode_predictor.go) -/
+
+/-- encode_predictor.go `encColorTransformDelta(m int8, color uint8) int8` =
+    `Impl.LTransform.encColorTransformDelta` (the `int8` multiplier given by its byte) -/
+theorem tie_encColorTransformDelta (m c : UInt8) :
+    Generated.Funcs.encColorTransformDelta (sext8 m) c.toNat = Webp.Impl.LTransform.encColorTransformDelta m c := by
+  unfold Generated.Funcs.encColorTransformDelta Webp.Impl.LTransform.encColorTransformDelta
+  rw [wrapS8_nat_eq_sext8]
+  have ht := sext8_range m
+  have hc := sext8_range c
+  have := mul_s8_range _ _ ht.1 ht.2 hc.1 hc.2
+  rw [wrapS32_of_range _ (by omega) (by omega), wrapS8_eq_sext8]
+  rfl
+
+/-- the delta is an `int8` -/
+theorem enc_range (m c : UInt8) : -128 ≤ Webp.Impl.LTransform.encColorTransformDelta m c ∧
+    Webp.Impl.LTransform.encColorTransformDelta m c ≤ 127 := sext8_range _
+
+/-- encode_predictor.go `applyColorTransformPixel` = `Impl.LTransform.applyColorTransformPixel`
+    with the three `int8` multipliers read from the packed tile word `m`
+    (g2r = bits 0..7, g2b = 8..15, r2b = 16..23) -/
+theorem tie_applyColorTransformPixel (m p : UInt32) :
+    Generated.Funcs.applyColorTransformPixel ⟨sext8 (chB m), sext8 (chG m), sext8 (chR m)⟩ p.toNat
+      = ((Webp.Impl.LTransform.applyColorTransformPixel m p).toNat : Int) := by
+  unfold Generated.Funcs.applyColorTransformPixel Webp.Impl.LTransform.applyColorTransformPixel
+  simp only [shr_nat_lit, wrapU8_wrapS8]
+  simp only [wrapU8_eq, ← chG_toNat, ← chR_toNat, ← chB_toNat, tie_encColorTransformDelta]
+  have hG := (chG p).toNat_lt; have hR := (chR p).toNat_lt; have hB := (chB p).toNat_lt
+  have e1 := enc_range (chB m) (chG p)
+  have e2 := enc_range (chG m) (chG p)
+  have e3 := enc_range (chR m) (chR p)
+  generalize Webp.Impl.LTransform.encColorTransformDelta (chB m) (chG p) = d1 at *
+  generalize Webp.Impl.LTransform.encColorTransformDelta (chG m) (chG p) = d2 at *
+  generalize Webp.Impl.LTransform.encColorTransformDelta (chR m) (chR p) = d3 at *
+  rw [wrapS32_of_range (((chR p).toNat : Int) - d1) (by omega) (by omega),
+    wrapS32_of_range (((chB p).toNat : Int) - d2) (by omega) (by omega)]
+  simp only [band_255_int]
+  have hx : 0 ≤ (((chB p).toNat : Int) - d2) % 256 ∧ (((chB p).toNat : Int) - d2) % 256 < 256 := by omega
+  rw [wrapS32_of_range ((((chB p).toNat : Int) - d2) % 256 - d3) (by omega) (by omega)]
+  exact compose_px p _ _ (by omega) (by omega) (by omega) (by omega)
+
+/-- encode_predictor.go `packMultipliers` builds that tile word -/
+theorem tie_packMultipliers (g2r g2b r2b : UInt8) :
+    Generated.Funcs.packMultipliers ⟨sext8 g2r, sext8 g2b, sext8 r2b⟩ = ((mk 0 r2b g2b g2r).toNat : Int) := by
+  have h1 := g2r.toNat_lt; have h2 := g2b.toNat_lt; have h3 := r2b.toNat_lt
+  simp only [Generated.Funcs.packMultipliers, wrapU8_sext8, shl_nat_lit, wrapU_nat, bor_nat, mk, UInt32.toNat_or,
+    UInt32.toNat_shiftLeft, UInt32.toNat_ofNat, UInt8.toNat_toUInt32, Nat.reducePow, Nat.reduceMod]
+  simp
+  ac_rfl
+
+/-- `applyColorTransformPixel` for arbitrary `int8` multipliers = the model on the packed word -/
+theorem tie_applyColorTransformPixel_mk (g2r g2b r2b : UInt8) (p : UInt32) :
+    Generated.Funcs.applyColorTransformPixel ⟨sext8 g2r, sext8 g2b, sext8 r2b⟩ p.toNat
+      = ((Webp.Impl.LTransform.applyColorTransformPixel (mk 0 r2b g2b g2r) p).toNat : Int) := by
+  have := tie_applyColorTransformPixel (mk 0 r2b g2b g2r) p
+  rwa [chR_mk0, chG_mk0, chB_mk0] at this
+
+/-- non-vacuity -/
+example : Generated.Funcs.bitsLog2Floor 1000 = .ok 9 := by decide
+example : Generated.Funcs.bitsLog2Floor (-5) = .ok 0 := by decide
+example : Generated.Funcs.PrefixEncodeNoLUT 1000 = .ok (19, 8, 231) := by decide
+example : Generated.Funcs.PrefixEncodeBitsNoLUT 1000 = .ok (19, 8) := by decide
+example : Generated.Funcs.subPixels 0x12345678 0xfedcba98 = 0x14589ce0 := by decide
+example : Generated.Funcs.predictPixel 13 0x12345678 0xfedcba98 0x01020304 0x0a0b0c0d = 3351692997 := by decide
+example : Generated.Funcs.predictPixel 99 1 2 3 4 = 0xff000000 ∧ Generated.Funcs.predictPixel (-1) 1 2 3 4 = 0xff000000 := by decide
+example : Generated.Funcs.encColorTransformDelta (-128) 128 = 0 ∧ Generated.Funcs.encColorTransformDelta 127 127 = -8 := by decide
+example : Generated.Funcs.applyColorTransformPixel ⟨-3, 5, 100⟩ 0x12345678 = 306009801 := by decide
+example : Generated.Funcs.packMultipliers ⟨-3, 5, 100⟩ = 0x006405fd := by decide
 
 end Webp.Props.C01Funcs
